@@ -323,6 +323,40 @@ func jrGen(args []string) error {
 			}
 		}
 	}
+	// the shortest byte strings, systematically: every single byte, and every two-byte string that starts like
+	// something a reader may special-case (byte order marks, UTF-8 lead bytes, the first characters of JSON values)
+	for ci := range cls {
+		cl := &cls[ci]
+		if cl.Class.Form != "malformed" {
+			continue
+		}
+		cname := fmt.Sprintf("%s/%s/tables=%v/params=%s/extras=%v/inputs=%s", cl.Class.Form, cl.Class.Name, cl.Class.Tables, cl.Class.Params, cl.Class.Extras, cl.Class.Inputs)
+		emit := func(b []byte) {
+			if json.Valid(b) && len(b) > 0 && (b[0] == '{') {
+				return
+			}
+			id++
+			enc.Encode(jrRequest{ID: id, Class: cname + "/short", Expect: cl.Response.Kind, Model: "Sum", Split: id%2 == 0, Bytes: b})
+		}
+		for x := 0; x < 256; x++ {
+			emit([]byte{byte(x)})
+		}
+		leads := []byte{0xEF, 0xFE, 0xFF, 0xC3, 0xE2, 0xF0, 0x00, '{', '[', '"', '-', 't', 'f', 'n', '\\', ' '}
+		stride := 1
+		if per <= 1 {
+			stride = 3 // quick: every third second byte (offset by the seed), all of them in the thorough tier
+		}
+		for _, l := range leads {
+			for x := int(seed()) % stride; x < 256; x += stride {
+				emit([]byte{l, byte(x)})
+			}
+		}
+		for _, pre := range [][]byte{{0xEF, 0xBB, 0xBF}, {0xEF, 0xBB}, {0xFE, 0xFF}, {0xFF, 0xFE}, {0xEF, 0xBB, 0xBF, 0xEF}} {
+			emit(pre)
+			emit(append(append([]byte{}, pre...), []byte(`{"Name":"Sum"}`)...))
+		}
+		break
+	}
 	w.Flush()
 	fh.Close()
 	s := &summary{Engine: "jsonrun-gen", Evaluations: id, Distinct: len(cls)}
